@@ -120,6 +120,15 @@ def main(tier):
             add("* = $%x\ntgt:\n* = $%x\n%s tgt\n" % (t, a, mn), dict(c, order="back", pcafter_known=True))
             # ... and after it (forward reference)
             add("* = $%x\n%s tgt\n* = $%x\ntgt:\n" % (a, mn, t), dict(c, order="fwd", pcafter_known=False))
+            # ... and inside a relocated segment (stored at S, running at its pc): the distance is one of run addresses
+            if -128 <= d <= 127 and (d % 3 == 0 or abs(d) > 120 or mn in ("bne", "bvs")):
+                S = 0x4000 if not (0x3000 <= a <= 0x5000) else 0x9000
+                if d <= -2 and t >= 0:
+                    add('.define segment { name = "r" start = $%x pc = $%x }\n.segment "r" {\ntgt:\n.loop %d { nop }\n%s tgt\n}\n' % (S, t, a - t, mn),
+                        dict(c, order="reloc-back", pcafter_known=False, at=a - t))
+                elif d >= 0:
+                    add('.define segment { name = "r" start = $%x pc = $%x }\n.segment "r" {\n%s tgt\n.loop %d { nop }\ntgt:\n}\n' % (S, a, mn, d),
+                        dict(c, order="reloc-fwd", pcafter_known=False, at=0))
             if 0 <= d <= 140 and mn in ("bne", "bcc"):
                 add("* = $%x\n%s tgt\n.loop %d { nop }\ntgt:\n" % (a, mn, d), dict(c, order="fwd-nops", pcafter_known=False))
 
@@ -167,6 +176,8 @@ def main(tier):
                          "ok": o["ok"], "bytes": whole(o) if o["ok"] else [], "ndiags": ndiags, "pcafter": -1})
         elif m["kind"] == "br":
             b = seg_bytes_at(o, m["addr"], 2) if o["ok"] else []
+            if o["ok"] and "at" in m:
+                b = whole(o)[m["at"]:m["at"] + 2]
             recs.append({"id": cid, "kind": "br", "mn": m["mn"], "form": "dir", "v": m["v"], "addr": m["addr"],
                          "ok": o["ok"], "bytes": b, "ndiags": ndiags,
                          "pcafter": (o["segments"][0]["pc"] if (o["ok"] and m["pcafter_known"]) else -1)})
